@@ -128,6 +128,7 @@ def _vector_node_degree(expr: Expression) -> tuple[bool, Optional[int]]:
     from optyx.core.vectors import (
         DotProduct,
         LinearCombination,
+        VectorExpressionSum,
         VectorSum,
         VectorPowerSum,
         VectorUnarySum,
@@ -137,6 +138,9 @@ def _vector_node_degree(expr: Expression) -> tuple[bool, Optional[int]]:
 
     if isinstance(expr, (LinearCombination, VectorSum)):
         return True, _vector_elements_degree(expr.vector)
+    if isinstance(expr, VectorExpressionSum):
+        # (x - y).sum() has the degree of its elements, like the same sum written out
+        return True, _vector_elements_degree(expr.expression)
     if isinstance(expr, DotProduct):
         left_deg = _vector_elements_degree(expr.left)
         right_deg = _vector_elements_degree(expr.right)
@@ -510,6 +514,7 @@ def _extract_coefficient_impl(expr: Expression, var: Variable) -> float:
     from optyx.core.vectors import (
         DotProduct,
         LinearCombination,
+        VectorExpressionSum,
         VectorPowerSum,
         VectorSum,
     )
@@ -554,6 +559,15 @@ def _extract_coefficient_impl(expr: Expression, var: Variable) -> float:
                 if v.name == var.name:
                     return 1.0
         return 0.0
+
+    # Sum over the elements of a vector expression
+    if isinstance(expr, VectorExpressionSum):
+        return float(
+            sum(
+                _extract_coefficient_impl(elem, var)
+                for elem in expr.expression._expressions
+            )
+        )
 
     # DotProduct: a linear dot product is a sum of (constant * linear) products
     if isinstance(expr, DotProduct):
@@ -658,6 +672,7 @@ def _extract_constant_impl(expr: Expression) -> float:
     from optyx.core.vectors import (
         DotProduct,
         LinearCombination,
+        VectorExpressionSum,
         VectorPowerSum,
         VectorSum,
     )
@@ -671,6 +686,11 @@ def _extract_constant_impl(expr: Expression) -> float:
     # (x ** 0).sum() is the constant n; (x ** 1).sum() has no constant term
     if isinstance(expr, VectorPowerSum):
         return float(len(expr.vector._variables)) if expr.power == 0.0 else 0.0
+
+    if isinstance(expr, VectorExpressionSum):
+        return float(
+            sum(_extract_constant_impl(elem) for elem in expr.expression._expressions)
+        )
 
     # Vector expressions over plain variables have no constant term; the
     # elements of a vector *expression* (c @ (x + 1)) may carry constants
@@ -920,6 +940,7 @@ def _extract_all_coefficients_impl(
     from optyx.core.vectors import (
         DotProduct,
         LinearCombination,
+        VectorExpressionSum,
         VectorPowerSum,
         VectorSum,
         VectorVariable,
@@ -936,6 +957,12 @@ def _extract_all_coefficients_impl(
                 idx = var_index.get(var.name)
                 if idx is not None:
                     result[idx] += multiplier
+        return
+
+    # Sum over the elements of a vector expression
+    if isinstance(expr, VectorExpressionSum):
+        for elem in expr.expression._expressions:
+            _extract_all_coefficients_impl(elem, var_index, result, multiplier)
         return
 
     # Variable - add coefficient at this variable's index
